@@ -96,6 +96,7 @@ def run(ctx):
     for r in recs:
         if r["skip"].startswith("HARNESS"):
             raise MachineryError(r.get("detail"))
+    compobs.require_coverage(recs)
     # documented rejection: the trajectory-constraints remover reports problems it proves unsolvable
     # by raising UPProblemDefinitionError("PROBLEM NOT SOLVABLE ...")
     for r in recs:
